@@ -8,6 +8,7 @@ import (
 	"os/exec"
 	"path/filepath"
 	"strings"
+	"time"
 
 	"apdsim/plan"
 )
@@ -36,7 +37,17 @@ func historyOracle(cfg *config) ([]failure, []string, map[string]interface{}) {
 	for from := 0; from < runs; {
 		cmd := exec.Command(v.Bin(false), "worker", "-wl", "reg", "-mode", "c06", "-seed", fmt.Sprint(seed), "-from", fmt.Sprint(from), "-to", fmt.Sprint(runs), "-tier", cfg.tier, "-histlog", log)
 		cmd.Env = append(os.Environ(), "GOMAXPROCS=1")
-		b, err := cmd.CombinedOutput()
+		var ob bytes.Buffer
+		cmd.Stdout, cmd.Stderr = &ob, &ob
+		err, stopped := runBounded(cmd, histBudget(cfg))
+		b := ob.Bytes()
+		if stopped != "" {
+			// the tree under test made a logged run astronomically expensive (or
+			// huge); that is for the main exploration to judge — this oracle gives
+			// no verdict on such a tree
+			st["history_oracle_inconclusive"] = stopped
+			return nil, nil, st
+		}
 		if err == nil {
 			break
 		}
@@ -65,7 +76,12 @@ func historyOracle(cfg *config) ([]failure, []string, map[string]interface{}) {
 		var out, errb bytes.Buffer
 		cmd.Stdout = &out
 		cmd.Stderr = &errb
-		if err := cmd.Run(); err != nil {
+		err, stopped := runBounded(cmd, histBudget(cfg))
+		if stopped != "" {
+			st["history_oracle_inconclusive"] = stopped
+			continue
+		}
+		if err != nil {
 			infra = append(infra, fmt.Sprintf("history oracle: re-evaluation failed: %v: %s", err, trim(errb.String(), 1000)))
 			continue
 		}
@@ -95,4 +111,40 @@ func historyOracle(cfg *config) ([]failure, []string, map[string]interface{}) {
 	st["records_reevaluated"] = total
 	st["fresh_processes"] = shuffles
 	return fails, infra, st
+}
+
+func histBudget(cfg *config) time.Duration {
+	if cfg.tier == "thorough" {
+		return 20 * time.Minute
+	}
+	return 5 * time.Minute
+}
+
+// runBounded runs cmd to completion unless it exceeds the wall-clock budget or
+// 3 GB resident; then it is killed and the reason returned.
+func runBounded(cmd *exec.Cmd, budget time.Duration) (error, string) {
+	if err := cmd.Start(); err != nil {
+		return err, ""
+	}
+	done := make(chan error, 1)
+	go func() { done <- cmd.Wait() }()
+	deadline := time.After(budget)
+	tick := time.NewTicker(time.Second)
+	defer tick.Stop()
+	for {
+		select {
+		case err := <-done:
+			return err, ""
+		case <-deadline:
+			cmd.Process.Kill()
+			<-done
+			return nil, fmt.Sprintf("stopped after %v", budget)
+		case <-tick.C:
+			if rss := rssMB(cmd.Process.Pid); rss > 3072 {
+				cmd.Process.Kill()
+				<-done
+				return nil, fmt.Sprintf("stopped at %d MB resident", rss)
+			}
+		}
+	}
 }
